@@ -150,8 +150,13 @@ def rule_pixel_pipeline(ck, m, rid):
         ck.ob(rid, top, same_bool(grd, top.test, "alpha is None or img.mode in {'1', 'L', 'RGB', 'HSV', 'CMYK'}", expand_b=False) or same_bool(grd, top.test, "alpha is None or img.mode in {'1', 'L', 'RGB', 'HSV', 'CMYK'}"),
               f"alpha processing may be skipped only for `alpha is None` or the modes that cannot carry transparency {{'1','L','RGB','HSV','CMYK'}}; found `{norm(top.test)[:110]}` - palette images keep "
               "their transparency in info['transparency'] (index 0 is a valid, falsy value)", stmt="_get_render_data: which sources skip alpha processing")
-        modes_calls = [norm(c.args[0]) for x in top.body + top.orelse for c in ast.walk(x) if isinstance(c, ast.Call) and call_name(c) == "convert_resize_img" and c.args]
-        ck.ob(rid, top, modes_calls[:2] == ["'RGB'", "'RGBA'"], f"opaque sources are converted to RGB, the others to RGBA; found {modes_calls}", stmt="_get_render_data: target modes")
+        # every conversion call sits on one side of that decision (inside the if/else, or after it when the opaque branch returns)
+        sides = {}
+        for c in body_walk(grd):
+            if isinstance(c, ast.Call) and call_name(c) == "convert_resize_img" and c.args:
+                side = next((b_ for t_, b_ in guards(c) if t_ is top.test), None)
+                sides.setdefault(side, set()).add(norm(c.args[0]))
+        ck.ob(rid, top, sides == {True: {"'RGB'"}, False: {"'RGBA'"}}, f"opaque sources are converted to RGB, the others to RGBA; found { {str(k): sorted(v) for k, v in sides.items()} }", stmt="_get_render_data: target modes")
     # the bi-level classification of alpha happens whenever pixel data with rounded alpha is requested (no shortcut on the threshold value)
     cls_st = [s_ for s_ in body_walk(grd) if isinstance(s_, ast.Assign) and isinstance(s_.value, ast.ListComp) and isinstance(s_.value.elt, ast.IfExp)]
     for s_ in cls_st:
